@@ -12,6 +12,7 @@ func newContinuousPool(m *PoolManager, numWorkers int) *ContinuousPool {
 		numWorkers:         numWorkers,
 		iterationStatePool: m.makeIterationStatePool(numWorkers),
 		manager:            m,
+		completed:          make(chan struct{}),
 	}
 }
 
@@ -21,6 +22,13 @@ type ContinuousPool struct {
 	iterationStatePool []*iterationState
 	numWorkers         int
 	stopWorkers        atomic.Bool
+	poolWorkers        sync.WaitGroup
+	completed          chan struct{}
+}
+
+// Completed is closed once every worker of this pool has returned.
+func (p *ContinuousPool) Completed() <-chan struct{} {
+	return p.completed
 }
 
 func (p *ContinuousPool) Start(ctx context.Context) {
@@ -31,9 +39,14 @@ func (p *ContinuousPool) Start(ctx context.Context) {
 
 	workersStarted.Add(p.numWorkers)
 	p.manager.runningWorkers.Add(p.numWorkers)
+	p.poolWorkers.Add(p.numWorkers)
 	for _, iterationState := range p.iterationStatePool {
 		go p.startWorker(iterationState, &workersStarted)
 	}
+	go func() {
+		p.poolWorkers.Wait()
+		close(p.completed)
+	}()
 
 	// context.Done() and context.Err() for context that can be cancelled use a Lock.
 	// To avoid frequent locking - use an atomic.Bool for cancellation instead of checking the
@@ -53,6 +66,7 @@ func (p *ContinuousPool) startWorker(
 	workersStarted *sync.WaitGroup,
 ) {
 	defer p.manager.runningWorkers.Done()
+	defer p.poolWorkers.Done()
 
 	// wait for all workers to start before execution to make sure we're executing at the
 	// concurrency requested
